@@ -299,6 +299,9 @@ func (v *Verifier) VerifyFunc(key string, c *Contract, class map[string]string) 
 	for _, r := range c.Requires {
 		st.Assume(e.evalBool(r.E, se))
 	}
+	for _, u := range c.Uses {
+		st.Assume(e.evalBool(u.E, se))
+	}
 	e.entryHeld(st)
 	e.entry = st.Clone()
 	// vacuity guard: the precondition is satisfiable
